@@ -263,7 +263,7 @@ def explain(g, ev, trace, model, den, timeout_ms, expr=None):
     flags = sorted(k for k in trace if trace[k])
     if expr is not None and bound_literal_clash(ev, expr):
         flags = sorted(set(flags) | {D14_KEY})
-    if any(s1 and (v, val) in s2 for v, s1, val in ev for _, s2, _ in ev):
+    if any((v, val) in s2 for v, s1, val in ev for _, s2, _ in ev):
         # a counterfactual atom V_s = v whose value is used as the subscript V = v of another atom: the two worlds
         # have to be joined by composition, which the implementation does not do when it unions the subscripts
         flags = sorted(set(flags) | {D19_KEY})
@@ -314,7 +314,7 @@ def jobs_for(t):
             add(g, events(g.nodes, 2, 2))
             add(g, events(g.nodes, 3, 1, stride=8, offset=seed()))
         for i, g in enumerate(family(4, labellings=("fwd",), n_min=4)):
-            if max(len(g.parents(n)) for n in g.nodes) <= 2 and i % 4 == seed() % 4:
+            if max(len(g.parents(n)) for n in g.nodes) <= 2 and i % 24 == seed() % 24:
                 add(g, events(g.nodes, 2, 1))
         for name, g in CURATED.items():
             if len(g.nodes) <= 5 and max(len(g.parents(n)) for n in g.nodes) <= 2:
@@ -331,7 +331,7 @@ def run() -> int:
         "returned Expression -> z3 terms over a symbolic response-type model (vf/sem/l3.py)",
     ]
     rep.bounds = {
-        "graphs": "quick: ADMGs <=2 nodes (events of <=3 atoms, subscripts <=2), ADMGs with 3 nodes (events of <=2 atoms, subscripts <=1), curated fig9/front-door/napkin/bow (single atoms, subscripts <=2) + the figure-9 query; thorough: adds two labellings, 3-node graphs with subscripts <=2 and 1/8 of the 3-atom events, 1/4 of the 4-node classes with in-degree <=2",
+        "graphs": "quick: ADMGs <=2 nodes (events of <=3 atoms, subscripts <=2), ADMGs with 3 nodes (events of <=2 atoms, subscripts <=1), curated fig9/front-door/napkin/bow (single atoms, subscripts <=2) + the figure-9 query; thorough: adds two labellings, 3-node graphs with subscripts <=2 and 1/8 of the 3-atom events, 1/24 of the 4-node classes with in-degree <=2",
         "events": "conjunctions of atoms 'V under do(S) = v' over distinct (V, S), all value polarities, S may mention V itself, at most 2 distinct non-empty worlds",
         "models": "all positive functional SCMs over binary variables with one binary latent per bidirected edge: response-type distributions given the latents are free (moment parametrisation, every atom > 0); all worlds share the exogenous state",
         "per_query_timeout_ms": TIMEOUT_MS[t],
